@@ -571,31 +571,55 @@ example : inFragmentXsB sortWorlds (MG.fromEdges [0, 1, 2] [(1, 0)] [(1, 0), (0,
 
 /-! ## 2f. the rewriting of the outcomes at line 4 (after `fix:` 1a940ac) -/
 
-/-- **IDC\* answers Zero at the exchange ONLY when two outcomes collide with different values**: if the loop that re-subscripts
-the outcomes reports "inconsistent", two outcome conjuncts `p`, `p'` end up under the same key `k` (after the re-subscripting of
-those that descend from the exchanged condition) with different values -/
-theorem idcstar_collapse_zero_only_on_conflict (cf : MG Var) (outcomes : Event) (cond : Var) (val : Iv)
-    (h : exchangeStep cf outcomes cond val = .ok none) :
-    ∃ p ∈ outcomes, ∃ p' ∈ outcomes, ∃ k v v', exchangeKey cf cond val p = .ok (k, v) ∧
-      exchangeKey cf cond val p' = .ok (k, v') ∧ v ≠ v' :=
-  exchangeStep_none cf outcomes cond val h
+/-- **IDC\* answers Zero at the exchange ONLY when two outcomes collide with different values, or an outcome collides with a REMAINING
+CONDITION that demands a different value** (the second disjunct since `fix:` "IDC* returns Zero when the exchange makes an outcome a
+remaining condition's variable with a different value"; `rem` are the remaining conditions, `new_conditions` without the exchanged
+one): if the loop that re-subscripts the outcomes reports "inconsistent", either two outcome conjuncts `p`, `p'` end up under the
+same key `k` (after the re-subscripting of those that descend from the exchanged condition) with different values, or an outcome
+conjunct `p` ends up under a key `k` that the dict of the remaining conditions maps to a different value -/
+theorem idcstar_collapse_zero_only_on_conflict (cf : MG Var) (outcomes : Event) (cond : Var) (val : Iv) (rem : Event)
+    (h : exchangeStep cf outcomes cond val rem = .ok none) :
+    (∃ p ∈ outcomes, ∃ p' ∈ outcomes, ∃ k v v', exchangeKey cf cond val p = .ok (k, v) ∧
+      exchangeKey cf cond val p' = .ok (k, v') ∧ v ≠ v') ∨
+    (∃ p ∈ outcomes, ∃ k v v', exchangeKey cf cond val p = .ok (k, v) ∧ rem.get? k = some v' ∧ v' ≠ v) :=
+  exchangeStep_none cf outcomes cond val rem h
 
-/-- … and it never does when the re-keyed outcomes are pairwise different: then the loop returns exactly them -/
-theorem idcstar_no_collapse_no_zero (cf : MG Var) (outcomes : Event) (cond : Var) (val : Iv) (qs : List (Var × Iv))
-    (hm : outcomes.mapM (exchangeKey cf cond val) = .ok qs) (hnd : (qs.map (·.1)).Nodup) :
-    exchangeStep cf outcomes cond val = .ok (some qs) :=
-  exchangeStep_of_nodup cf outcomes cond val qs hm hnd
+/-- … and it never does when the re-keyed outcomes are pairwise different and none of them is the variable of a remaining condition
+with a different value: then the loop returns exactly them -/
+theorem idcstar_no_collapse_no_zero (cf : MG Var) (outcomes : Event) (cond : Var) (val : Iv) (rem : Event) (qs : List (Var × Iv))
+    (hm : outcomes.mapM (exchangeKey cf cond val) = .ok qs) (hnd : (qs.map (·.1)).Nodup)
+    (hcl : ∀ q ∈ qs, ∀ v, rem.get? q.1 = some v → v = q.2) :
+    exchangeStep cf outcomes cond val rem = .ok (some qs) :=
+  exchangeStep_of_nodup cf outcomes cond val rem qs hm hnd hcl
 
 /-- whenever the loop returns a dict, it is the dict the comprehension it replaced would have built -/
-theorem idcstar_exchange_dict (cf : MG Var) (outcomes : Event) (cond : Var) (val : Iv) (e : Event)
-    (h : exchangeStep cf outcomes cond val = .ok (some e)) : exchangeOutcomes cf outcomes cond val = .ok e :=
-  exchangeStep_some cf outcomes cond val e h
+theorem idcstar_exchange_dict (cf : MG Var) (outcomes : Event) (cond : Var) (val : Iv) (rem : Event) (e : Event)
+    (h : exchangeStep cf outcomes cond val rem = .ok (some e)) : exchangeOutcomes cf outcomes cond val = .ok e :=
+  exchangeStep_some cf outcomes cond val rem e h
+
+/-- … and then no re-keyed outcome is the variable of a remaining condition that demands a different value (the converse of the second
+disjunct of `idcstar_collapse_zero_only_on_conflict`: on such a clash the loop never returns a dict) -/
+theorem idcstar_exchange_dict_agrees_with_conditions (cf : MG Var) (outcomes : Event) (cond : Var) (val : Iv) (rem : Event)
+    (e : Event) (h : exchangeStep cf outcomes cond val rem = .ok (some e)) :
+    ∀ p ∈ outcomes, ∀ q, exchangeKey cf cond val p = .ok q → ∀ v, rem.get? q.1 = some v → v = q.2 :=
+  exchangeStep_some_no_clash cf outcomes cond val rem e h
 
 /-- non-vacuity, the witness of the repaired defect: on `C → B → D` (B=1, C=2, D=3), outcomes `D_b = d`, `D = d'`, exchanged
 condition `B = b`: `D` becomes `D_b`, which is there with the other value -/
 example : exchangeStep (MG.fromEdges [Var.plain 1, Var.plain 2, Var.plain 3, ⟨3, none, false, [⟨1, false⟩]⟩]
       [(Var.plain 2, Var.plain 1), (Var.plain 1, Var.plain 3)] [])
-    [(⟨3, none, false, [⟨1, false⟩]⟩, ⟨3, false⟩), (Var.plain 3, ⟨3, true⟩)] (Var.plain 1) ⟨1, false⟩ = .ok none := by decide
+    [(⟨3, none, false, [⟨1, false⟩]⟩, ⟨3, false⟩), (Var.plain 3, ⟨3, true⟩)] (Var.plain 1) ⟨1, false⟩ [] = .ok none := by decide
+
+/-- non-vacuity of the second disjunct (the shape of the witness of the second repaired defect): same graph, outcome `D = d`, exchanged
+condition `B = b`, remaining condition `D_b = d'`: `D` becomes `D_b`, the variable of a remaining condition with the other value -/
+example : exchangeStep (MG.fromEdges [Var.plain 1, Var.plain 2, Var.plain 3, ⟨3, none, false, [⟨1, false⟩]⟩]
+      [(Var.plain 2, Var.plain 1), (Var.plain 1, Var.plain 3)] [])
+    [(Var.plain 3, ⟨3, false⟩)] (Var.plain 1) ⟨1, false⟩ [(⟨3, none, false, [⟨1, false⟩]⟩, ⟨3, true⟩)] = .ok none := by decide
+/-- … and with the SAME value the loop returns the re-keyed outcome -/
+example : exchangeStep (MG.fromEdges [Var.plain 1, Var.plain 2, Var.plain 3, ⟨3, none, false, [⟨1, false⟩]⟩]
+      [(Var.plain 2, Var.plain 1), (Var.plain 1, Var.plain 3)] [])
+    [(Var.plain 3, ⟨3, false⟩)] (Var.plain 1) ⟨1, false⟩ [(⟨3, none, false, [⟨1, false⟩]⟩, ⟨3, false⟩)] =
+      .ok (some [(⟨3, none, false, [⟨1, false⟩]⟩, ⟨3, false⟩)]) := by decide
 
 /-! ## 3. vocabulary (C06, IDC* part) -/
 
